@@ -115,7 +115,7 @@ func genCase(t *rapid.T) Case {
 	}
 	switch c.Kind {
 	case "plyref":
-		f := plyref.Gen(t, plyref.Opts{ExcludeAsciiUcharScalar: false, MinVerts: 1, MaxVerts: 5, NonZero: true, ForceFaces: rapid.Bool().Draw(t, "forceFaces")})
+		f := plyref.Gen(t, plyref.Opts{ExcludeAsciiUcharScalar: false, MinVerts: 1, MaxVerts: 5, NonZero: true, UVCount: true, ForceFaces: rapid.Bool().Draw(t, "forceFaces")})
 		c.Ply = &f
 	case "plywrite", "stl":
 		o := gen.MeshOpts{MaxN: 6, MinN: 1, MaxPrims: 4, NeedPos: true, Val: gen.Eighths(4),
